@@ -129,6 +129,7 @@ package vm
 //@ func gasCallCode
 //@   props C16
 //@   requires evm != nil && contract != nil && mem != nil && stackOK(stack, 7) && operand(stack, 0) >= 0 && gt.Calls <= 1<<32
+//@   let gasOperand = operand(stack, 0); valueOperand = operand(stack, 2); gasLeft = contract.Gas; calls = gt.Calls; cbs = gt.CreateBySuicide
 //@   ensures result1 == nil ==> int(result0) >= int(evm.callGasTemp) + ite(operand(stack, 2) != 0, int(params.CallStipend), 0)
 //@ func gasDelegateCall
 //@   props C16
